@@ -42,6 +42,11 @@ func (k msgServer) CreateDappProposal(goCtx context.Context, msg *types.MsgCreat
 		}
 	}
 
+	// the creation bond counts towards the maximum dapp bond like every later bond
+	if msg.Bond.Amount.GT(sdk.NewInt(int64(properties.MaxDappBond)).Mul(sdk.NewInt(1000_000))) {
+		return nil, types.ErrMaxDappBondReached
+	}
+
 	// send initial bond to module account
 	if msg.Bond.IsPositive() {
 		err := k.keeper.bk.SendCoinsFromAccountToModule(ctx, addr, types.ModuleName, sdk.Coins{msg.Bond})
